@@ -107,6 +107,16 @@ def check(case) -> list[Fail]:
                     got = f"raises {type(e).__name__}"
                 if got != ref.enc_type(t):
                     fails.append(Fail("port_type", f"{k}:out", f"offset {i}: {got}"[:200]))
+    if ins is not None and hasattr(x, "port_type"):
+        for P, has, what in ((InPort, s["order_in"], "order-in"), (OutPort, s["order_out"], "order-out")):
+            if not has:
+                continue
+            try:
+                t = x.port_type(P(n, -1))
+            except Exception:  # noqa: BLE001
+                t = None
+            if t is not None:
+                fails.append(Fail("port_type", f"{k}:{what}-has-a-type", f"order port reported type {t!r}"[:200]))
     if s["static_in"] is not None:
         expect(InPort(n, len(ins)), want_static(s["static_in"]), "static-in")
     if s["static_out"] is not None:
